@@ -94,11 +94,30 @@ class RecExecutor(object):
 
     def submit(self, fn, *args):
         h = self.h
-        job = args[0]
+        # what is submitted is the scheduler's business (a job object, an
+        # id, ...): take what can be read from it, ask the store otherwise
+        job = args[0] if args else None
+        jid = getattr(job, 'id', job if isinstance(job, str) else None)
+        tag, execute_at = None, None
+        try:
+            tag = job.func_args.get('tag')
+            execute_at = boot.CLOCK.rel(job.execute_at)
+        except Exception:
+            try:
+                row = boot.raw_connection().execute(
+                    'SELECT func_args, execute_at FROM scheduled_jobs_v2 '
+                    'WHERE id=?', (jid,)).fetchone()
+                if row:
+                    import json as _json
+                    tag = (_json.loads(row[0]) or {}).get('tag')
+                    execute_at = boot.CLOCK.rel(
+                        datetime.datetime.fromisoformat(row[1]))
+            except Exception:
+                pass
         h.submitted.append({'t': boot.CLOCK.rel(boot.CLOCK.now_sec()),
                             't_exact': boot.CLOCK.rel(),
-                            'id': job.id, 'tag': job.func_args.get('tag'),
-                            'execute_at': boot.CLOCK.rel(job.execute_at),
+                            'id': jid, 'tag': tag,
+                            'execute_at': execute_at,
                             'after_shutdown': self.down,
                             'after_stop': h.stopped})
         h.queue.append((fn, args))
